@@ -10,7 +10,8 @@ From Verif Require Import Intention.Spec.
 Inductive wop :=
 | LSet (i : ixn)                 (* Store.LegacyIntentionSet *)
 | CEnt (e : entry)               (* Normalize; Validate; Store.EnsureConfigEntry *)
-| CUps (dn : string) (v : src).  (* Store.IntentionMutation(IntentionOpUpsert) *)
+| CUps (dn : string) (v : src)   (* Store.IntentionMutation(IntentionOpUpsert) *)
+| CDest (n : string).            (* service-defaults entry for n with a Destination block *)
 
 Record case := Case {
   c_legacy : bool;
@@ -24,11 +25,12 @@ Record case := Case {
   c_all : list ixn;                       (* Store.Intentions *)
   c_msrc : list (list N);                 (* per query entry: positions in c_all *)
   c_mdst : list (list N);
+  c_msrd : list (list N);                 (* by source, target type "destination" *)
   c_r1 : list N;                          (* qs x qd, summary codes *)
   c_r2 : list N                           (* peer x qs x qd *)
 }.
 
-Inductive state := SL (t : list ixn) | SC (st : list entry).
+Inductive state := SL (t : list ixn) | SC (st : list entry) (dk : list string).
 
 Definition werr_code (w : werr) : N :=
   match w with WOk => 0 | WMissingID => 100 | WDuplicate => 101 | WInvalid c => c end%N.
@@ -36,8 +38,9 @@ Definition werr_code (w : werr) : N :=
 Definition step (s : state) (o : wop) : N * state :=
   match s, o with
   | SL t, LSet i => let '(w, t') := legacy_set t i in (werr_code w, SL t')
-  | SC st, CEnt e => let '(w, st') := ensure st e in (werr_code w, SC st')
-  | SC st, CUps dn v => let '(w, st') := upsert st dn v in (werr_code w, SC st')
+  | SC st dk, CEnt e => let '(w, st') := ensure st e in (werr_code w, SC st' dk)
+  | SC st dk, CUps dn v => let '(w, st') := upsert st dn v in (werr_code w, SC st' dk)
+  | SC st dk, CDest n => (0%N, SC st (n :: dk))
   | _, _ => (999%N, s)
   end.
 
@@ -48,11 +51,13 @@ Fixpoint steps (s : state) (os : list wop) : list N * state :=
   end.
 
 Definition st_all (s : state) : list ixn :=
-  match s with SL t => legacy_list t | SC st => config_list st end.
+  match s with SL t => legacy_list t | SC st _ => config_list st end.
 Definition st_msrc (s : state) (ns n : string) : list ixn :=
-  match s with SL t => legacy_match t MSrc ns n | SC st => cmatch_src st n end.
+  match s with SL t => legacy_match t MSrc ns n | SC st dk => cmatch_src_k dk false st n end.
+Definition st_msrd (s : state) (ns n : string) : list ixn :=
+  match s with SL t => legacy_match t MSrc ns n | SC st dk => cmatch_src_k dk true st n end.
 Definition st_mdst (s : state) (ns n : string) : list ixn :=
-  match s with SL t => legacy_match t MDst ns n | SC st => cmatch_dst st n end.
+  match s with SL t => legacy_match t MDst ns n | SC st _ => cmatch_dst st n end.
 
 Definition summary_code (d : summary) : N :=
   ((if d_allowed d then 1 else 0) + (if d_has_perms d then 2 else 0) + (if d_has_exact d then 4 else 0))%N.
@@ -76,17 +81,18 @@ Definition pairs {A B} (a : list A) (b : list B) : list (A * B) :=
 
 Record obs := Obs {
   o_wres : list N; o_all : list ixn; o_msrc : list (list ixn); o_mdst : list (list ixn);
+  o_msrd : list (list ixn);
   o_r1 : list N; o_r2 : list N
 }.
 
 (* The match list of every query entry is computed once; the decisions are then exactly
    [route1 (st_msrc s) ..] and [route2 (st_mdst s) ..] of Intention/Model.v with the lists shared. *)
 Definition run (c : case) : obs :=
-  let '(wres, s) := steps (if c_legacy c then SL [] else SC []) (c_ops c) in
+  let '(wres, s) := steps (if c_legacy c then SL [] else SC [] []) (c_ops c) in
   let qs := c_qs c in
   let ms := map (fun q => st_msrc s (fst q) (snd q)) qs in
   let md := map (fun q => st_mdst s (fst q) (snd q)) qs in
-  Obs wres (st_all s) ms md
+  Obs wres (st_all s) ms md (map (fun q => st_msrd s (fst q) (snd q)) qs)
       (flat_map (fun l => map (fun qd : string * string =>
                    summary_code (decide l MDst (snd qd) (fst qd) "" (c_dflt c) (c_aperm c))) qs) ms)
       (flat_map (fun peer =>
@@ -100,6 +106,7 @@ Definition check (c : case) : bool :=
    && list_eqb ixn_eqb (o_all o) (c_all c)
    && list_eqb (list_eqb ixn_eqb) (o_msrc o) (map (pick (c_all c)) (c_msrc c))
    && list_eqb (list_eqb ixn_eqb) (o_mdst o) (map (pick (c_all c)) (c_mdst c))
+   && list_eqb (list_eqb ixn_eqb) (o_msrd o) (map (pick (c_all c)) (c_msrd c))
    && list_eqb N.eqb (o_r1 o) (c_r1 c)
    && list_eqb N.eqb (o_r2 o) (c_r2 c))%bool.
 
@@ -109,9 +116,10 @@ Definition mismatches (cs : list case) : list N := failing check cs.
    C13_paths_agree: valid rows / entries, no two names differing only in case. *)
 Definition in_scope (c : case) : bool :=
   let qn := map snd (c_qs c) ++ map fst (c_qs c) in
-  match snd (steps (if c_legacy c then SL [] else SC []) (c_ops c)) with
+  match snd (steps (if c_legacy c then SL [] else SC [] []) (c_ops c)) with
   | SL t => (legacy_okb t && coherentb (tnames t ++ qn))%bool
-  | SC st => (store_okb st && coherentb (enames st ++ qn))%bool
+  | SC st dk => (store_okb st && coherentb (enames st ++ qn)
+                 && forallb (fun e => negb (is_dest_kind dk (e_name e))) st)%bool
   end.
 Definition scope_count (cs : list case) : N := N.of_nat (List.length (filter in_scope cs)).
 
